@@ -43,7 +43,7 @@ TABLE = {
                 text='insert missing/empty rows at generated positions; every operation restricted to the original rows is unchanged and inert rows are never selected/matched.'),
     'C18': dict(engine='E4 + E1', technique='schedule/thread-count/delay perturbation sampled with Hypothesis; oracle = serial single-thread result', sec='5 C18',
                 text='results under threaded scheduler, varying numba threads, concurrent clients and injected delays equal the serial result (sampling, cannot own the OS schedule).'),
-    'C19': dict(engine='E4 fault-injecting fsspec filesystem', technique='exhaustive single-fault enumeration + Hypothesis-drawn fault pairs/repeats; oracle = fault-free snapshot, identical-or-raises', sec='5 C19',
+    'C19': dict(engine='E4 fault-injecting fsspec filesystem', technique='exhaustive single-fault enumeration; enumerated abort points (a primitive failing through the whole retry budget at every position) followed by the repeat with overwrite=True; fault pairs with the second fault inside the recovery window of the first (thorough: enumerated for two configurations) + Hypothesis-drawn pairs/triples/sticky faults; oracle = fault-free snapshot, identical-or-raises', sec='5 C19',
                 text='every filesystem call position x fault kind enumerated; outcome must equal the fault-free dataset or raise, and a repeat with overwrite=True repairs.', category='fault_enumeration'),
     'C20': dict(engine='E2 stateful + E1', technique='Hypothesis stateful machine over frame operations with a model of the active column', sec='5 C20',
                 text='active geometry name and behaviour (cx / sindex / sjoin / Dask partitions) follow the model through operation histories.'),
